@@ -96,6 +96,270 @@ func (c *Child) hook(tx *gorm.DB, name string) error {
 	return cur.hook(tx, "Child", name, unsafe.Pointer(c), c.Tag, func(v string) { c.Name = v })
 }
 
+// ---- models with hook subsets (no associations, except Plain) -----------------------------------
+
+// Flat carries the columns of every subset model; it has no hook of its own.
+type Flat struct {
+	ID   uint `gorm:"primaryKey"`
+	Tag  string
+	Name string
+	Note string
+	Age  int
+}
+
+func (f *Flat) flat() *Flat { return f }
+
+func (f *Flat) fire(tx *gorm.DB, model, hook string) error {
+	return cur.hook(tx, model, hook, unsafe.Pointer(f), f.Tag, func(v string) { f.Name = v })
+}
+
+// SaveOnly: only the two Save hooks.
+type SaveOnly struct{ Flat }
+
+func (m *SaveOnly) BeforeSave(tx *gorm.DB) error { return m.fire(tx, "SaveOnly", hBeforeSave) }
+func (m *SaveOnly) AfterSave(tx *gorm.DB) error  { return m.fire(tx, "SaveOnly", hAfterSave) }
+
+// AfterSaveOnly: a single hook.
+type AfterSaveOnly struct{ Flat }
+
+func (m *AfterSaveOnly) AfterSave(tx *gorm.DB) error { return m.fire(tx, "AfterSaveOnly", hAfterSave) }
+
+type CreateOnly struct{ Flat }
+
+func (m *CreateOnly) BeforeCreate(tx *gorm.DB) error { return m.fire(tx, "CreateOnly", hBeforeCreate) }
+func (m *CreateOnly) AfterCreate(tx *gorm.DB) error  { return m.fire(tx, "CreateOnly", hAfterCreate) }
+
+type UpdateOnly struct{ Flat }
+
+func (m *UpdateOnly) BeforeUpdate(tx *gorm.DB) error { return m.fire(tx, "UpdateOnly", hBeforeUpdate) }
+func (m *UpdateOnly) AfterUpdate(tx *gorm.DB) error  { return m.fire(tx, "UpdateOnly", hAfterUpdate) }
+
+type DeleteOnly struct{ Flat }
+
+func (m *DeleteOnly) BeforeDelete(tx *gorm.DB) error { return m.fire(tx, "DeleteOnly", hBeforeDelete) }
+func (m *DeleteOnly) AfterDelete(tx *gorm.DB) error  { return m.fire(tx, "DeleteOnly", hAfterDelete) }
+
+type FindOnly struct{ Flat }
+
+func (m *FindOnly) AfterFind(tx *gorm.DB) error { return m.fire(tx, "FindOnly", hAfterFind) }
+
+// Mixed declares the Save hooks on the value and the specific hooks on the pointer.
+type Mixed struct{ Flat }
+
+func (m Mixed) BeforeSave(tx *gorm.DB) error    { return m.Flat.fire(tx, "Mixed", hBeforeSave) }
+func (m Mixed) AfterSave(tx *gorm.DB) error     { return m.Flat.fire(tx, "Mixed", hAfterSave) }
+func (m *Mixed) BeforeCreate(tx *gorm.DB) error { return m.fire(tx, "Mixed", hBeforeCreate) }
+func (m *Mixed) AfterCreate(tx *gorm.DB) error  { return m.fire(tx, "Mixed", hAfterCreate) }
+func (m *Mixed) BeforeUpdate(tx *gorm.DB) error { return m.fire(tx, "Mixed", hBeforeUpdate) }
+func (m *Mixed) AfterUpdate(tx *gorm.DB) error  { return m.fire(tx, "Mixed", hAfterUpdate) }
+
+// Plain has no hook at all; its has-many children (Child) have all of them.
+type Plain struct {
+	Flat
+	Kids []Child `gorm:"foreignKey:ParentID"`
+}
+
+func (p *Plain) setKids(k []Child) { p.Kids = k }
+
+type kidHolder interface{ setKids([]Child) }
+
+func (SaveOnly) TableName() string      { return "flats" }
+func (AfterSaveOnly) TableName() string { return "flats" }
+func (CreateOnly) TableName() string    { return "flats" }
+func (UpdateOnly) TableName() string    { return "flats" }
+func (DeleteOnly) TableName() string    { return "flats" }
+func (FindOnly) TableName() string      { return "flats" }
+func (Mixed) TableName() string         { return "flats" }
+func (Plain) TableName() string         { return "plains" }
+
+// hookSetOf reads the applicable hooks off the method set of v (as gorm's schema parser and
+// callMethod's interface assertions do).
+func hookSetOf(v interface{}) map[string]bool {
+	s := map[string]bool{}
+	if _, ok := v.(interface{ BeforeSave(*gorm.DB) error }); ok {
+		s[hBeforeSave] = true
+	}
+	if _, ok := v.(interface{ BeforeCreate(*gorm.DB) error }); ok {
+		s[hBeforeCreate] = true
+	}
+	if _, ok := v.(interface{ AfterCreate(*gorm.DB) error }); ok {
+		s[hAfterCreate] = true
+	}
+	if _, ok := v.(interface{ BeforeUpdate(*gorm.DB) error }); ok {
+		s[hBeforeUpdate] = true
+	}
+	if _, ok := v.(interface{ AfterUpdate(*gorm.DB) error }); ok {
+		s[hAfterUpdate] = true
+	}
+	if _, ok := v.(interface{ AfterSave(*gorm.DB) error }); ok {
+		s[hAfterSave] = true
+	}
+	if _, ok := v.(interface{ BeforeDelete(*gorm.DB) error }); ok {
+		s[hBeforeDelete] = true
+	}
+	if _, ok := v.(interface{ AfterDelete(*gorm.DB) error }); ok {
+		s[hAfterDelete] = true
+	}
+	if _, ok := v.(interface{ AfterFind(*gorm.DB) error }); ok {
+		s[hAfterFind] = true
+	}
+	return s
+}
+
+// kit is what the generic machinery needs to know about one top-level model type.
+type kit struct {
+	name       string
+	table      string
+	hooks      map[string]bool // method set of *T: the hooks gorm considers applicable
+	valueHooks map[string]bool // method set of T: hooks declared on the value (they see a copy)
+	hasBoss    bool
+	hasKids    bool
+	build      func(c *Case) *memory
+	updateWith func(note string, age int, name string) interface{} // struct argument of Updates
+}
+
+type flatPtr[T any] interface {
+	*T
+	flat() *Flat
+}
+
+func makeKit[T any, PT flatPtr[T]](name, table string) *kit {
+	var zero T
+	k := &kit{name: name, table: table, hooks: hookSetOf(PT(&zero)), valueHooks: hookSetOf(zero)}
+	_, k.hasKids = interface{}(PT(&zero)).(kidHolder)
+	fill := func(p PT, r RecSpec, m *memory) {
+		*p.flat() = Flat{ID: r.ID, Tag: r.Tag, Name: r.Name, Note: r.Note, Age: r.Age}
+		if kh, ok := interface{}(p).(kidHolder); ok && len(r.Kids) > 0 {
+			kids := make([]Child, len(r.Kids))
+			for i, ks := range r.Kids {
+				kids[i] = Child{Tag: ks.Tag, Name: ks.Name}
+				m.ptrs[ks.Tag] = uintptr(unsafe.Pointer(&kids[i]))
+			}
+			kh.setKids(kids)
+		}
+	}
+	ref := func(p PT) memRec {
+		f := p.flat()
+		return memRec{Tag: f.Tag, ID: f.ID, Ptr: uintptr(unsafe.Pointer(f))}
+	}
+	k.updateWith = func(note string, age int, name string) interface{} {
+		var v T
+		*PT(&v).flat() = Flat{Note: note, Age: age, Name: name}
+		return v
+	}
+	k.build = func(c *Case) *memory {
+		m := &memory{ptrs: map[string]uintptr{}}
+		switch c.Op {
+		case opFind, opFirst:
+			switch c.Shape {
+			case shPtr:
+				p := PT(new(T))
+				m.arg = p
+				m.find = func() []memRec { return []memRec{ref(p)} }
+			case shPtrSlice:
+				sl := &[]T{}
+				m.arg = sl
+				m.find = func() []memRec {
+					out := make([]memRec, len(*sl))
+					for i := range *sl {
+						out[i] = ref(PT(&(*sl)[i]))
+					}
+					return out
+				}
+			case shPtrPSlice:
+				sl := &[]*T{}
+				m.arg = sl
+				m.find = func() []memRec {
+					out := make([]memRec, len(*sl))
+					for i := range *sl {
+						out[i] = ref(PT((*sl)[i]))
+					}
+					return out
+				}
+			}
+			return m
+		}
+		n := len(c.Recs)
+		switch c.Shape {
+		case shPtr, shCond:
+			p := PT(new(T))
+			if c.Shape == shCond {
+				p.flat().Tag = "cond"
+			} else {
+				fill(p, c.Recs[0], m)
+			}
+			m.arg = p
+			m.recs = []memRec{ref(p)}
+		case shPtrSlice, shSlice:
+			sl := make([]T, n)
+			for i, r := range c.Recs {
+				fill(PT(&sl[i]), r, m)
+				m.recs = append(m.recs, ref(PT(&sl[i])))
+			}
+			if c.Shape == shPtrSlice {
+				m.arg = &sl
+			} else {
+				m.arg = sl
+			}
+		case shPtrPSlice, shPSlice:
+			sl := make([]*T, n)
+			for i, r := range c.Recs {
+				sl[i] = new(T)
+				fill(PT(sl[i]), r, m)
+				m.recs = append(m.recs, ref(PT(sl[i])))
+			}
+			if c.Shape == shPtrPSlice {
+				m.arg = &sl
+			} else {
+				m.arg = sl
+			}
+		}
+		return m
+	}
+	return k
+}
+
+var kits = map[string]*kit{}
+
+// modelNames in generation order (Parent is the full-featured model and is drawn most often).
+var modelNames = []string{"Parent", "SaveOnly", "AfterSaveOnly", "CreateOnly", "UpdateOnly", "DeleteOnly", "FindOnly", "Mixed", "Plain"}
+
+func init() {
+	kits["Parent"] = &kit{name: "Parent", table: "parents", hooks: hookSetOf(&Parent{}), valueHooks: hookSetOf(Parent{}),
+		hasBoss: true, hasKids: true, build: buildParentMem,
+		updateWith: func(note string, age int, name string) interface{} { return Parent{Note: note, Age: age, Name: name} }}
+	kits["SaveOnly"] = makeKit[SaveOnly]("SaveOnly", "flats")
+	kits["AfterSaveOnly"] = makeKit[AfterSaveOnly]("AfterSaveOnly", "flats")
+	kits["CreateOnly"] = makeKit[CreateOnly]("CreateOnly", "flats")
+	kits["UpdateOnly"] = makeKit[UpdateOnly]("UpdateOnly", "flats")
+	kits["DeleteOnly"] = makeKit[DeleteOnly]("DeleteOnly", "flats")
+	kits["FindOnly"] = makeKit[FindOnly]("FindOnly", "flats")
+	kits["Mixed"] = makeKit[Mixed]("Mixed", "flats")
+	kits["Plain"] = makeKit[Plain]("Plain", "plains")
+}
+
+func (c *Case) kit() *kit {
+	if c.Model == "" {
+		return kits["Parent"]
+	}
+	return kits[c.Model]
+}
+
+// applicable: the model's method set has the hook (children implement all nine).
+func applicable(model, hook string) bool {
+	if model == "Child" {
+		return true
+	}
+	return kits[model].hooks[hook]
+}
+
+func valueHook(model, hook string) bool {
+	if model == "Child" {
+		return false
+	}
+	return kits[model].valueHooks[hook]
+}
+
 // ---- the run in progress (hooks are methods of static types: they find their run here) ----------
 
 var errHook = errors.New("c13: injected hook failure")
@@ -131,6 +395,12 @@ func (r *runState) hook(tx *gorm.DB, model, name string, ptr unsafe.Pointer, tag
 		iv.ProbeErr = tx.Raw(probeText(n)).Scan(&one).Error
 	} else {
 		iv.ProbeErr = tx.Exec(probeText(n)).Error
+	}
+	if r.c.Audit {
+		// a side row written through the hook's handle: part of what the operation did
+		if err := tx.Exec("INSERT INTO audits (n, what) VALUES (?, ?)", n, model+"."+name+"("+tag+")").Error; err != nil && iv.ProbeErr == nil {
+			iv.ProbeErr = err
+		}
 	}
 	r.invs = append(r.invs, iv)
 	if r.c.Set != "" && r.isSetter(name) {
@@ -200,6 +470,8 @@ const (
 )
 
 type Case struct {
+	Model      string // top-level model type ("" = Parent)
+	Audit      bool   // every hook invocation also writes a row into audits through its handle
 	Seed       []SeedRow
 	Op         string
 	Shape      string
@@ -233,7 +505,10 @@ func (r RecSpec) String() string {
 
 func (c Case) String() string {
 	var b strings.Builder
-	fmt.Fprintf(&b, "seed=%v %s %s", c.Seed, c.Op, c.Shape)
+	fmt.Fprintf(&b, "%s seed=%v %s %s", c.kit().name, c.Seed, c.Op, c.Shape)
+	if c.Audit {
+		b.WriteString(" hooks-write-audits")
+	}
 	if len(c.Recs) > 0 || c.Shape != shCond {
 		fmt.Fprintf(&b, " recs=%v", c.Recs)
 	}
@@ -301,35 +576,39 @@ type seedContent struct {
 	children []Child
 }
 
-func materialize(seed []SeedRow) seedContent {
+func materialize(c *Case) seedContent {
 	var sc seedContent
+	k := c.kit()
 	cid := uint(0)
-	for _, s := range seed {
+	for _, s := range c.Seed {
 		p := Parent{ID: s.ID, Tag: fmt.Sprintf("s%d", s.ID), Name: fmt.Sprintf("name%d", s.ID), Note: "seed", Age: int(s.ID)}
-		if s.Boss {
+		if s.Boss && k.hasBoss {
 			cid++
 			sc.children = append(sc.children, Child{ID: cid, Tag: fmt.Sprintf("s%d.boss", s.ID), Name: "boss"})
 			id := cid
 			p.BossID = &id
 		}
-		for k := 0; k < s.Kids; k++ {
+		for j := 0; j < s.Kids && k.hasKids; j++ {
 			cid++
 			pid := s.ID
-			sc.children = append(sc.children, Child{ID: cid, Tag: fmt.Sprintf("s%d.k%d", s.ID, k), Name: "kid", ParentID: &pid})
+			sc.children = append(sc.children, Child{ID: cid, Tag: fmt.Sprintf("s%d.k%d", s.ID, j), Name: "kid", ParentID: &pid})
 		}
 		sc.parents = append(sc.parents, p)
 	}
 	return sc
 }
 
-func openDB(seed []SeedRow) *testdb.DB {
+func openDB(c *Case) *testdb.DB {
 	d := testdb.Open(testdb.Options{Config: gorm.Config{DisableForeignKeyConstraintWhenMigrating: true}})
 	if ddl == nil {
-		if err := d.AutoMigrate(&Parent{}, &Child{}); err != nil {
+		if err := d.AutoMigrate(&Parent{}, &Child{}, &SaveOnly{}, &Plain{}); err != nil {
+			panic("harness: migrate: " + err.Error())
+		}
+		if err := d.Exec("CREATE TABLE audits (id integer PRIMARY KEY AUTOINCREMENT, n integer, what text)").Error; err != nil {
 			panic("harness: migrate: " + err.Error())
 		}
 		var stmts []string
-		if err := d.Raw("SELECT sql FROM sqlite_master WHERE sql IS NOT NULL AND name NOT LIKE 'sqlite_%' ORDER BY rowid").Scan(&stmts).Error; err != nil || len(stmts) < 2 {
+		if err := d.Raw("SELECT sql FROM sqlite_master WHERE sql IS NOT NULL AND name NOT LIKE 'sqlite_%' ORDER BY rowid").Scan(&stmts).Error; err != nil || len(stmts) < 5 {
 			panic(fmt.Sprintf("harness: capture ddl: %v %v", err, stmts))
 		}
 		ddl = stmts
@@ -340,14 +619,21 @@ func openDB(seed []SeedRow) *testdb.DB {
 			}
 		}
 	}
-	sc := materialize(seed)
-	for _, c := range sc.children {
-		if err := d.Exec("INSERT INTO children (id, tag, name, parent_id) VALUES (?,?,?,?)", c.ID, c.Tag, c.Name, c.ParentID).Error; err != nil {
+	sc := materialize(c)
+	for _, ch := range sc.children {
+		if err := d.Exec("INSERT INTO children (id, tag, name, parent_id) VALUES (?,?,?,?)", ch.ID, ch.Tag, ch.Name, ch.ParentID).Error; err != nil {
 			panic("harness: seed: " + err.Error())
 		}
 	}
+	table := c.kit().table
 	for _, p := range sc.parents {
-		if err := d.Exec("INSERT INTO parents (id, tag, name, note, age, boss_id) VALUES (?,?,?,?,?,?)", p.ID, p.Tag, p.Name, p.Note, p.Age, p.BossID).Error; err != nil {
+		var err error
+		if table == "parents" {
+			err = d.Exec("INSERT INTO parents (id, tag, name, note, age, boss_id) VALUES (?,?,?,?,?,?)", p.ID, p.Tag, p.Name, p.Note, p.Age, p.BossID).Error
+		} else {
+			err = d.Exec("INSERT INTO "+table+" (id, tag, name, note, age) VALUES (?,?,?,?,?)", p.ID, p.Tag, p.Name, p.Note, p.Age).Error
+		}
+		if err != nil {
 			panic("harness: seed: " + err.Error())
 		}
 	}
@@ -371,9 +657,18 @@ type cRow struct {
 	ParentID *uint
 }
 
+type aRow struct {
+	ID   uint
+	N    int
+	What string
+}
+
+// tables: P is the table of the case's top-level model.
 type tables struct {
-	P []pRow
-	C []cRow
+	Main string
+	P    []pRow
+	C    []cRow
+	A    []aRow
 }
 
 func up(p *uint) string {
@@ -385,7 +680,7 @@ func up(p *uint) string {
 
 func (t tables) String() string {
 	var b strings.Builder
-	b.WriteString("parents:")
+	b.WriteString(t.Main + ":")
 	for _, r := range t.P {
 		fmt.Fprintf(&b, " {%d %s %q %q %d boss=%s}", r.ID, r.Tag, r.Name, r.Note, r.Age, up(r.BossID))
 	}
@@ -393,40 +688,57 @@ func (t tables) String() string {
 	for _, r := range t.C {
 		fmt.Fprintf(&b, " {%d %s %q parent=%s}", r.ID, r.Tag, r.Name, up(r.ParentID))
 	}
+	b.WriteString(" audits:")
+	for _, r := range t.A {
+		fmt.Fprintf(&b, " {%d %d %s}", r.ID, r.N, r.What)
+	}
 	return b.String()
 }
 
 // dump reads both tables (and the AUTOINCREMENT counters) with recording paused.
-func dump(d *testdb.DB) (tables, string) {
-	var t tables
+func dump(d *testdb.DB, c *Case) (tables, string) {
+	t := tables{Main: c.kit().table}
 	type seqRow struct {
 		Name string
 		Seq  int
 	}
 	var seqs []seqRow
+	var others []int
 	d.Rec.Pause()
 	saved := cur
 	cur = nil
-	e1 := d.Raw("SELECT id, tag, name, note, age, boss_id FROM parents ORDER BY id").Scan(&t.P).Error
+	boss := "NULL AS boss_id"
+	if t.Main == "parents" {
+		boss = "boss_id"
+	}
+	e1 := d.Raw("SELECT id, tag, name, note, age, " + boss + " FROM " + t.Main + " ORDER BY id").Scan(&t.P).Error
 	e2 := d.Raw("SELECT id, tag, name, parent_id FROM children ORDER BY id").Scan(&t.C).Error
 	e3 := d.Raw("SELECT name, seq FROM sqlite_sequence ORDER BY name").Scan(&seqs).Error
+	e4 := d.Raw("SELECT id, n, what FROM audits ORDER BY id").Scan(&t.A).Error
+	e5 := d.Raw("SELECT count(*) FROM parents UNION ALL SELECT count(*) FROM flats UNION ALL SELECT count(*) FROM plains").Scan(&others).Error
 	cur = saved
 	d.Rec.Resume()
-	if e1 != nil || e2 != nil || e3 != nil {
-		panic(fmt.Sprintf("harness: dump: %v %v %v", e1, e2, e3))
+	if e1 != nil || e2 != nil || e3 != nil || e4 != nil || e5 != nil {
+		panic(fmt.Sprintf("harness: dump: %v %v %v %v %v", e1, e2, e3, e4, e5))
 	}
-	return t, fmt.Sprintf("%s seq=%v", t, seqs)
+	return t, fmt.Sprintf("%s seq=%v rows(parents,flats,plains)=%v", t, seqs, others)
 }
 
 // ---- in-memory arguments ------------------------------------------------------------------------
 
+// memRec is one top-level in-memory record of a run.
+type memRec struct {
+	Tag string
+	ID  uint
+	Ptr uintptr
+}
+
 // memory is what one run hands to gorm.
 type memory struct {
-	arg     interface{}        // the value passed to the finisher / Model
-	parents []*Parent          // the in-memory parent records, in argument order
-	ptrs    map[string]uintptr // tag -> address of the in-memory record (parents, kids, bosses)
-	model   map[string]string  // tag -> model name
-	find    func() []*Parent   // find / first: the loaded records after the operation
+	arg  interface{}        // the value passed to the finisher / Model
+	recs []memRec           // the top-level in-memory records, in argument order
+	ptrs map[string]uintptr // tag -> address of the in-memory child records (kids, bosses)
+	find func() []memRec    // find / first: the loaded records after the operation
 }
 
 func buildParent(r RecSpec) Parent {
@@ -440,8 +752,11 @@ func buildParent(r RecSpec) Parent {
 	return p
 }
 
-func build(c *Case) *memory {
-	m := &memory{ptrs: map[string]uintptr{}, model: map[string]string{}}
+func build(c *Case) *memory { return c.kit().build(c) }
+
+func buildParentMem(c *Case) *memory {
+	m := &memory{ptrs: map[string]uintptr{}}
+	ref := func(p *Parent) memRec { return memRec{Tag: p.Tag, ID: p.ID, Ptr: uintptr(unsafe.Pointer(p))} }
 	n := len(c.Recs)
 	switch c.Op {
 	case opFind, opFirst:
@@ -449,24 +764,31 @@ func build(c *Case) *memory {
 		case shPtr:
 			p := &Parent{}
 			m.arg = p
-			m.find = func() []*Parent { return []*Parent{p} }
+			m.find = func() []memRec { return []memRec{ref(p)} }
 		case shPtrSlice:
 			s := &[]Parent{}
 			m.arg = s
-			m.find = func() []*Parent {
-				out := make([]*Parent, len(*s))
+			m.find = func() []memRec {
+				out := make([]memRec, len(*s))
 				for i := range *s {
-					out[i] = &(*s)[i]
+					out[i] = ref(&(*s)[i])
 				}
 				return out
 			}
 		case shPtrPSlice:
 			s := &[]*Parent{}
 			m.arg = s
-			m.find = func() []*Parent { return append([]*Parent(nil), (*s)...) }
+			m.find = func() []memRec {
+				out := make([]memRec, len(*s))
+				for i := range *s {
+					out[i] = ref((*s)[i])
+				}
+				return out
+			}
 		}
 		return m
 	}
+	var parents []*Parent
 	switch c.Shape {
 	case shPtr, shCond:
 		var p *Parent
@@ -477,12 +799,12 @@ func build(c *Case) *memory {
 			p = &v
 		}
 		m.arg = p
-		m.parents = []*Parent{p}
+		parents = []*Parent{p}
 	case shPtrSlice, shSlice:
 		s := make([]Parent, n)
 		for i, r := range c.Recs {
 			s[i] = buildParent(r)
-			m.parents = append(m.parents, &s[i])
+			parents = append(parents, &s[i])
 		}
 		if c.Shape == shPtrSlice {
 			m.arg = &s
@@ -494,7 +816,7 @@ func build(c *Case) *memory {
 		for i, r := range c.Recs {
 			v := buildParent(r)
 			s[i] = &v
-			m.parents = append(m.parents, s[i])
+			parents = append(parents, s[i])
 		}
 		if c.Shape == shPtrPSlice {
 			m.arg = &s
@@ -502,16 +824,13 @@ func build(c *Case) *memory {
 			m.arg = s
 		}
 	}
-	for _, p := range m.parents {
-		m.ptrs[p.Tag] = uintptr(unsafe.Pointer(p))
-		m.model[p.Tag] = "Parent"
+	for _, p := range parents {
+		m.recs = append(m.recs, ref(p))
 		if p.Boss != nil {
 			m.ptrs[p.Boss.Tag] = uintptr(unsafe.Pointer(p.Boss))
-			m.model[p.Boss.Tag] = "Child"
 		}
 		for i := range p.Kids {
 			m.ptrs[p.Kids[i].Tag] = uintptr(unsafe.Pointer(&p.Kids[i]))
-			m.model[p.Kids[i].Tag] = "Child"
 		}
 	}
 	return m
@@ -574,11 +893,11 @@ func (c *Case) updateValues() interface{} {
 		}
 		return mp
 	}
-	p := Parent{Note: c.NewNote, Age: 77}
+	name := ""
 	if c.CallerName != "" {
-		p.Name = callerName
+		name = callerName
 	}
-	return p
+	return c.kit().updateWith(c.NewNote, 77, name)
 }
 
 // updateColumn is the argument pair of Update / UpdateColumn.
@@ -629,6 +948,9 @@ func (e event) String() string {
 			s += " -> " + e.Err.Error()
 		}
 		return s
+	}
+	if e.Kind == "audit" {
+		return fmt.Sprintf("audit-row tx=%d %v", e.TxID, e.Err)
 	}
 	return fmt.Sprintf("%s tx=%d", e.Kind, e.TxID)
 }
@@ -713,6 +1035,8 @@ func unify(evs []recdrv.Event, invs []invocation) (log []event, problems []strin
 			kind := "stmt"
 			if verb == "SAVEPOINT" {
 				kind = "savepoint"
+			} else if table == "audits" {
+				kind = "audit" // written by a hook, accounted for with its invocation
 			}
 			log = append(log, event{Kind: kind, Seq: e.Seq, TxID: e.TxID, Conn: e.ConnID, Text: e.Text, Verb: verb, Table: table, Err: e.Err})
 		}
@@ -742,7 +1066,7 @@ func phaseOf(hook string) string {
 type want struct {
 	Tag    string
 	Model  string
-	Kind   string // "create" | "update" | "save" (create or update pair) | "delete" | "find"
+	Kind   string // "create" | "update" | "delete" | "find"
 	Table  string
 	Parent string // tag of the owning parent record ("" for top-level records)
 	Ptr    uintptr
@@ -773,9 +1097,9 @@ type runResult struct {
 
 // runOnce executes the case on a fresh database with the failAt-th hook invocation failing.
 func runOnce(c *Case, failAt int) (res runResult, problems []string) {
-	d := openDB(c.Seed)
+	d := openDB(c)
 	defer d.Close()
-	_, res.Before = dump(d)
+	_, res.Before = dump(d, c)
 	m := build(c)
 	res.Mem = m
 	rs := &runState{c: c, fail: failAt}
@@ -804,14 +1128,14 @@ func runOnce(c *Case, failAt int) (res runResult, problems []string) {
 	if n := d.Rec.OpenTx(); n != 0 {
 		problems = append(problems, fmt.Sprintf("%d driver transaction(s) left open", n))
 	}
-	res.AfterT, res.After = dump(d)
+	res.AfterT, res.After = dump(d, c)
 	return res, problems
 }
 
 // parentKeys: the non-zero primary keys of the in-memory parents (what a nested delete is keyed by).
 func parentKeys(c *Case, m *memory) []uint {
 	var out []uint
-	for _, p := range m.parents {
+	for _, p := range m.recs {
 		if p.ID != 0 {
 			out = append(out, p.ID)
 		}
@@ -831,15 +1155,10 @@ func containsID(ids []uint, id uint) bool {
 // expect derives, from the case alone, which records must see which hooks.
 func expect(c *Case, m *memory) expectation {
 	var ex expectation
-	sc := materialize(c.Seed)
+	sc := materialize(c)
+	k := c.kit()
 	switch c.Op {
 	case opFind, opFirst:
-		if !c.hooksRun() {
-			if c.Op == opFirst && len(c.IDs) == 0 {
-				ex.Err = gorm.ErrRecordNotFound
-			}
-			return ex
-		}
 		var loaded []Parent
 		for _, p := range sc.parents {
 			if containsID(c.IDs, p.ID) {
@@ -854,8 +1173,11 @@ func expect(c *Case, m *memory) expectation {
 		if c.Op == opFirst && len(loaded) == 0 {
 			ex.Err = gorm.ErrRecordNotFound
 		}
+		if !c.hooksRun() {
+			return ex
+		}
 		for _, p := range loaded {
-			ex.Wants = append(ex.Wants, want{Tag: p.Tag, Model: "Parent", Kind: "find", Table: "parents"})
+			ex.Wants = append(ex.Wants, want{Tag: p.Tag, Model: k.name, Kind: "find", Table: k.table})
 		}
 		for _, pre := range c.Preload {
 			seenBoss := map[uint]bool{}
@@ -879,7 +1201,7 @@ func expect(c *Case, m *memory) expectation {
 	}
 	ex.Writes = true
 	// empty slices: gorm refuses them
-	if len(m.parents) == 0 {
+	if len(m.recs) == 0 {
 		switch c.Op {
 		case opCreate, opSave, opCreateBatches:
 			ex.Err = gorm.ErrEmptySlice
@@ -888,19 +1210,22 @@ func expect(c *Case, m *memory) expectation {
 		}
 		return ex
 	}
-	if c.Op == opDelete && c.Shape == shCond && len(c.IDs) == 0 {
-		// `id IN (NULL)` is a condition: nothing matches, nothing fails
-	}
 	if !c.hooksRun() {
 		return ex
 	}
-	for i, p := range m.parents {
-		w := want{Tag: p.Tag, Model: "Parent", Table: "parents", Ptr: uintptr(unsafe.Pointer(p))}
+	for i, p := range m.recs {
+		w := want{Tag: p.Tag, Model: k.name, Table: k.table, Ptr: p.Ptr}
 		switch c.Op {
 		case opCreate, opCreateBatches:
 			w.Kind = "create"
 		case opSave:
-			w.Kind = "save"
+			// finisher_api.go Save: a slice is an upsert through the create callbacks; a struct with a
+			// zero key is created, with a key it is updated (the insert fallback runs without hooks)
+			if c.Shape != shPtr || p.ID == 0 {
+				w.Kind = "create"
+			} else {
+				w.Kind = "update"
+			}
 		case opUpdates, opUpdate:
 			w.Kind = "update"
 		case opDelete:
@@ -916,8 +1241,8 @@ func expect(c *Case, m *memory) expectation {
 			if r.Boss != nil {
 				ex.Wants = append(ex.Wants, want{Tag: r.Boss.Tag, Model: "Child", Kind: "create", Table: "children", Parent: p.Tag, Ptr: m.ptrs[r.Boss.Tag]})
 			}
-			for _, k := range r.Kids {
-				ex.Wants = append(ex.Wants, want{Tag: k.Tag, Model: "Child", Kind: "create", Table: "children", Parent: p.Tag, Ptr: m.ptrs[k.Tag]})
+			for _, kd := range r.Kids {
+				ex.Wants = append(ex.Wants, want{Tag: kd.Tag, Model: "Child", Kind: "create", Table: "children", Parent: p.Tag, Ptr: m.ptrs[kd.Tag]})
 			}
 		}
 	}
@@ -926,7 +1251,7 @@ func expect(c *Case, m *memory) expectation {
 
 type hookKey struct{ Tag, Model, Hook string }
 
-func verbOf(kind, beforeHook string) string {
+func verbOf(kind string) string {
 	switch kind {
 	case "create":
 		return "INSERT"
@@ -934,13 +1259,8 @@ func verbOf(kind, beforeHook string) string {
 		return "UPDATE"
 	case "delete":
 		return "DELETE"
-	case "find":
-		return "SELECT"
 	}
-	if beforeHook == hBeforeUpdate {
-		return "UPDATE"
-	}
-	return "INSERT"
+	return "SELECT"
 }
 
 // checkFaultFree judges the log of the fault-free run. It returns violations (empty: the grammar holds).
@@ -986,7 +1306,7 @@ func checkFaultFree(c *Case, ex expectation, res runResult) []string {
 			bad("%s.%s fired %d times for record %s", w.Model, hook, len(pos[k]), w.Tag)
 		}
 		p := pos[k][0]
-		if w.Ptr != 0 && log[p].Inv.Ptr != w.Ptr {
+		if w.Ptr != 0 && !valueHook(w.Model, hook) && log[p].Inv.Ptr != w.Ptr {
 			bad("%s.%s for record %s was called on a different object (%#x) than the in-memory record (%#x)", w.Model, hook, w.Tag, log[p].Inv.Ptr, w.Ptr)
 		}
 		return p
@@ -1000,15 +1320,6 @@ func checkFaultFree(c *Case, ex expectation, res runResult) []string {
 			seq = []string{hBeforeSave, hBeforeCreate, "|", hAfterCreate, hAfterSave}
 		case "update":
 			seq = []string{hBeforeSave, hBeforeUpdate, "|", hAfterUpdate, hAfterSave}
-		case "save":
-			// Save is a create or an update of the record; either pair, consistently
-			nC := len(pos[hookKey{w.Tag, w.Model, hBeforeCreate}]) + len(pos[hookKey{w.Tag, w.Model, hAfterCreate}])
-			nU := len(pos[hookKey{w.Tag, w.Model, hBeforeUpdate}]) + len(pos[hookKey{w.Tag, w.Model, hAfterUpdate}])
-			if nU > 0 && nC == 0 {
-				seq = []string{hBeforeSave, hBeforeUpdate, "|", hAfterUpdate, hAfterSave}
-			} else {
-				seq = []string{hBeforeSave, hBeforeCreate, "|", hAfterCreate, hAfterSave}
-			}
 		case "delete":
 			seq = []string{hBeforeDelete, "|", hAfterDelete}
 		case "find":
@@ -1017,11 +1328,14 @@ func checkFaultFree(c *Case, ex expectation, res runResult) []string {
 		last, lastName := -1, ""
 		stmtSeen := false
 		sp := span{lastBefore: -1, firstAfter: len(log)}
-		verb := verbOf(w.Kind, seq[1])
+		verb := verbOf(w.Kind)
 		for _, h := range seq {
 			if h == "|" {
 				stmtSeen = true
 				continue
+			}
+			if !applicable(w.Model, h) {
+				continue // not in the model's method set
 			}
 			p := one(w, h)
 			if p < 0 {
@@ -1120,10 +1434,20 @@ func checkTx(c *Case, ex expectation, res runResult, faulted bool) []string {
 	if !have {
 		opTx = 0
 	}
-	if ex.Writes && have && opTx == 0 && ex.Err == nil {
-		bad("the write statement ran outside any transaction")
+	hooksFired := false
+	for _, e := range res.Log {
+		if e.Kind == "hook" {
+			hooksFired = true
+		}
+	}
+	// a lone statement without hooks is atomic by itself; once hooks take part the operation needs a transaction of its own
+	if ex.Writes && have && opTx == 0 && ex.Err == nil && hooksFired {
+		bad("hooks took part in the write but it ran outside any transaction (nothing could be rolled back)")
 	}
 	for _, e := range res.Log {
+		if e.Kind == "audit" && e.TxID != opTx {
+			bad("a row written through a hook's handle went to driver transaction %d, the operation ran in %d", e.TxID, opTx)
+		}
 		if e.Kind == "hook" && e.TxID != opTx {
 			bad("%s.%s(%s) was given a handle outside the operation's transaction: its statement ran in driver transaction %d (connection %d), the operation in %d",
 				e.Inv.Model, e.Inv.Hook, e.Inv.Tag, e.TxID, e.Conn, opTx)
@@ -1214,7 +1538,14 @@ func checkStored(c *Case, ex expectation, res runResult) []string {
 		return nil
 	}
 	t := res.AfterT
-	sc := materialize(c.Seed)
+	sc := materialize(c)
+	// every hook invocation wrote exactly one side row through its handle
+	if c.Audit && len(t.A) != len(res.Invs) {
+		bad("%d audit rows are stored, the hooks wrote %d through their handles", len(t.A), len(res.Invs))
+	}
+	if !c.Audit && len(t.A) != 0 {
+		bad("%d audit rows are stored although no hook writes any", len(t.A))
+	}
 	pByTag := map[string][]pRow{}
 	pByID := map[uint]pRow{}
 	for _, r := range t.P {
@@ -1283,7 +1614,7 @@ func checkStored(c *Case, ex expectation, res runResult) []string {
 			}
 		}
 		if len(t.P) != len(sc.parents)+newRows {
-			bad("parents holds %d rows, expected %d", len(t.P), len(sc.parents)+newRows)
+			bad("the table holds %d rows, expected %d", len(t.P), len(sc.parents)+newRows)
 		}
 	case opUpdates, opUpdate, opUpdateColumn, opUpdateColumns:
 		for _, sp := range sc.parents {
@@ -1378,13 +1709,13 @@ func checkStored(c *Case, ex expectation, res runResult) []string {
 			var got []string
 			for _, p := range loaded {
 				got = append(got, p.Tag)
-				wantPtr[fmt.Sprintf("%s@%#x", p.Tag, uintptr(unsafe.Pointer(p)))] = true
+				wantPtr[fmt.Sprintf("%s@%#x", p.Tag, p.Ptr)] = true
 			}
 			if strings.Join(got, ",") != strings.Join(wantTags, ",") {
 				bad("loaded records %v, expected %v", got, wantTags)
 			}
 			for _, e := range res.Log {
-				if e.Kind == "hook" && e.Inv.Model == "Parent" && !wantPtr[fmt.Sprintf("%s@%#x", e.Inv.Tag, e.Inv.Ptr)] {
+				if e.Kind == "hook" && e.Inv.Model == c.kit().name && !valueHook(e.Inv.Model, e.Inv.Hook) && !wantPtr[fmt.Sprintf("%s@%#x", e.Inv.Tag, e.Inv.Ptr)] {
 					bad("AfterFind of %s was called on an object (%#x) that is not the loaded record in the destination", e.Inv.Tag, e.Inv.Ptr)
 				}
 			}
@@ -1405,7 +1736,10 @@ func seedHas(sc seedContent, id uint) bool {
 // ---- one case: fault-free run + every failing invocation ------------------------------------------
 
 func caseClasses(c *Case) []string {
-	cl := []string{"op:" + c.Op, "shape:" + c.Shape, "probe:" + c.Probe}
+	cl := []string{"model:" + c.kit().name, "op:" + c.Op, "shape:" + c.Shape, "probe:" + c.Probe}
+	if c.Audit {
+		cl = append(cl, "hooks-write-audits")
+	}
 	n := len(c.Recs)
 	if c.Op == opFind || c.Op == opFirst || c.Shape == shCond {
 		n = len(c.IDs)
@@ -1515,11 +1849,11 @@ func bucket(n int) string {
 
 var enabledOps = []string{opCreate, opCreate, opCreateBatches, opSave, opSave, opUpdates, opUpdate, opUpdateColumn, opUpdateColumns, opDelete, opDelete, opFind, opFind, opFirst}
 
-func drawKids(t *rapid.T, tag string, rich bool) (boss *KidSpec, kids []KidSpec) {
+func drawKids(t *rapid.T, tag string, rich, withBoss bool) (boss *KidSpec, kids []KidSpec) {
 	if !rich {
 		return nil, nil
 	}
-	if rapid.IntRange(0, 2).Draw(t, tag+".boss") == 0 {
+	if withBoss && rapid.IntRange(0, 2).Draw(t, tag+".boss") == 0 {
 		boss = &KidSpec{Tag: tag + ".boss", Name: "b-" + tag}
 	}
 	n := rapid.SampledFrom([]int{0, 0, 1, 2}).Draw(t, tag+".kids")
@@ -1531,6 +1865,14 @@ func drawKids(t *rapid.T, tag string, rich bool) (boss *KidSpec, kids []KidSpec)
 
 func drawCase(t *rapid.T) *Case {
 	c := &Case{}
+	// the full-featured Parent about half of the time, otherwise one of the hook-subset models
+	if mi := rapid.IntRange(0, 2*(len(modelNames)-1)-1).Draw(t, "model"); mi >= len(modelNames)-1 {
+		c.Model = "Parent"
+	} else {
+		c.Model = modelNames[mi+1]
+	}
+	k := c.kit()
+	isParent := c.Model == "Parent"
 	c.Op = rapid.SampledFrom(enabledOps).Draw(t, "op")
 	needSeed := 0
 	switch c.Op {
@@ -1539,9 +1881,14 @@ func drawCase(t *rapid.T) *Case {
 	}
 	nSeed := rapid.IntRange(needSeed, 5).Draw(t, "seed-rows")
 	for i := 1; i <= nSeed; i++ {
-		c.Seed = append(c.Seed, SeedRow{ID: uint(i),
-			Boss: rapid.IntRange(0, 2).Draw(t, "seed.boss") == 0,
-			Kids: rapid.SampledFrom([]int{0, 1, 2}).Draw(t, "seed.kids")})
+		row := SeedRow{ID: uint(i)}
+		if k.hasBoss {
+			row.Boss = rapid.IntRange(0, 2).Draw(t, "seed.boss") == 0
+		}
+		if k.hasKids {
+			row.Kids = rapid.SampledFrom([]int{0, 1, 2}).Draw(t, "seed.kids")
+		}
+		c.Seed = append(c.Seed, row)
 	}
 	c.Probe = rapid.SampledFrom([]string{"exec", "raw"}).Draw(t, "probe")
 	c.SkipHooks = rapid.IntRange(0, 5).Draw(t, "skiphooks") == 0
@@ -1593,13 +1940,15 @@ func drawCase(t *rapid.T) *Case {
 					r.ID = uint(900 + i)
 				}
 			}
-			r.Boss, r.Kids = drawKids(t, tag, rich)
+			r.Boss, r.Kids = drawKids(t, tag, rich && k.hasKids, k.hasBoss)
 			c.Recs = append(c.Recs, r)
 		}
 		if c.Op == opCreateBatches {
 			c.Batch = rapid.IntRange(1, n+1).Draw(t, "batch")
 		}
-		c.Set = rapid.SampledFrom([]string{"", "", "direct", "setcolumn"}).Draw(t, "set")
+		if isParent {
+			c.Set = rapid.SampledFrom([]string{"", "", "direct", "setcolumn"}).Draw(t, "set")
+		}
 	case opUpdates, opUpdate, opUpdateColumn, opUpdateColumns:
 		c.Shape = rapid.SampledFrom([]string{shPtr, shPtr, shPtrSlice, shPtrPSlice}).Draw(t, "shape")
 		var ids []uint
@@ -1616,9 +1965,11 @@ func drawCase(t *rapid.T) *Case {
 		}
 		c.NewNote = "new-" + rapid.SampledFrom([]string{"x", "y"}).Draw(t, "note")
 		// a before-hook changes what an update stores only through SetColumn (documented)
-		c.Set = rapid.SampledFrom([]string{"", "setcolumn"}).Draw(t, "set")
-		// the caller may write the same column the hook sets, naming it by field or by column
-		c.CallerName = rapid.SampledFrom([]string{"", "", "field", "column"}).Draw(t, "caller-name")
+		if isParent {
+			c.Set = rapid.SampledFrom([]string{"", "setcolumn"}).Draw(t, "set")
+			// the caller may write the same column the hook sets, naming it by field or by column
+			c.CallerName = rapid.SampledFrom([]string{"", "", "field", "column"}).Draw(t, "caller-name")
+		}
 	case opDelete:
 		c.Shape = rapid.SampledFrom([]string{shPtr, shPtrSlice, shPtrPSlice, shSlice, shPSlice, shCond}).Draw(t, "shape")
 		switch c.Shape {
@@ -1637,7 +1988,7 @@ func drawCase(t *rapid.T) *Case {
 				c.Recs = append(c.Recs, RecSpec{Tag: fmt.Sprintf("r%d", i), ID: id})
 			}
 		}
-		if c.Shape != shCond {
+		if c.Shape != shCond && k.hasKids {
 			c.DelKids = rapid.IntRange(0, 2).Draw(t, "select-kids") == 0
 		}
 	case opFind, opFirst:
@@ -1651,14 +2002,26 @@ func drawCase(t *rapid.T) *Case {
 		if c.IDs == nil {
 			c.IDs = []uint{}
 		}
-		switch rapid.IntRange(0, 5).Draw(t, "preload") {
-		case 0:
-			c.Preload = []string{"Kids"}
-		case 1:
-			c.Preload = []string{"Boss"}
-		case 2:
-			c.Preload = []string{"Boss", "Kids"}
+		if k.hasKids {
+			switch rapid.IntRange(0, 5).Draw(t, "preload") {
+			case 0:
+				c.Preload = []string{"Kids"}
+			case 1:
+				if k.hasBoss {
+					c.Preload = []string{"Boss"}
+				}
+			case 2:
+				if k.hasBoss {
+					c.Preload = []string{"Boss", "Kids"}
+				}
+			}
 		}
+	}
+	switch c.Op {
+	case opFind, opFirst:
+	default:
+		// hooks of a write also write a side row through their handle (must be rolled back with the rest)
+		c.Audit = rapid.IntRange(0, 2).Draw(t, "audit") == 0
 	}
 	if c.Set != "" {
 		c.SetIn = rapid.SampledFrom([]string{hBeforeSave, "specific"}).Draw(t, "set-in")
@@ -1676,12 +2039,14 @@ func seedIDs(n int) []uint {
 
 // ---- the property -------------------------------------------------------------------------------
 
-const rule = "C13: rapid draws an initial database (0-5 parent rows with 0-2 has-many children and an optional belongs-to child) and one operation: " +
+const rule = "C13: rapid draws a top-level model type (Parent: all nine hooks, has-many and belongs-to children with their own hooks; or a hook SUBSET without associations: only BeforeSave+AfterSave, only AfterSave, only Before/AfterCreate, only Before/AfterUpdate, only Before/AfterDelete, only AfterFind, value-receiver Save hooks mixed with pointer-receiver Create/Update hooks; or Plain: no hooks, hooked has-many children) - the applicable hooks are read off the type's method set - " +
+	"an initial database (0-5 rows with 0-2 has-many children and an optional belongs-to child where the model has them) and one operation: " +
 	"Create / CreateInBatches / Save of &T, &[]T, &[]*T, []T, []*T (0-5 records; new, existing or missing keys for Save; optionally with new has-many and belongs-to children carrying their own hooks), " +
 	"Model(&T | &[]T | &[]*T).Updates(struct|map) / Update / UpdateColumn / UpdateColumns (the caller optionally writing the column the hook sets, named by field or by column), " +
 	"Delete of &T, pointer and value slices, or a zero value with a condition, optionally with Select(\"Kids\") (nested delete of the children with its own hooks), " +
 	"Find(&[]T | &[]*T | &T) / First(&T) of 0-5 rows with optional Preload of the children; with or without Session{SkipHooks}, inside or outside a caller transaction, " +
 	"with a before-hook (BeforeSave or BeforeCreate/BeforeUpdate) setting Name directly (create/save) or through Statement.SetColumn, probes issued with Exec or Raw.Scan. " +
+	"optionally every hook invocation of a write also inserts a side row into an audits table through its handle (must be stored on success, rolled back on failure). " +
 	"The operation runs fault-free once (H hook invocations; event-log grammar, transaction identity and stored values checked), then EVERY h<H is run with the h-th invocation returning an error, each from an identical fresh database " +
 	"(error returned, identical prefix, no statement and no hook of another phase after the failure, no commit, database dump unchanged). " +
 	"One evaluation = one run. Non-trivial = at least two hooked records or hooked children, or the failing invocation is not the first. Distinct = initial rows + operation + argument shape + records + plan + failing index."
@@ -1694,6 +2059,10 @@ func TestC13(t *testing.T) {
 		c := drawCase(rt)
 		if c.inClassMapKeyAlias() && harness.OpenClass("C13", classMapKeyAlias) {
 			evid.Excluded(classMapKeyAlias)
+			return
+		}
+		if c.inClassMixedReceiver() && harness.OpenClass("C13", classMixedReceiver) {
+			evid.Excluded(classMixedReceiver)
 			return
 		}
 		checkCase(rt, c)
@@ -1724,6 +2093,42 @@ func TestC13WitnessSetColumnMapKeyAlias(t *testing.T) {
 	for _, op := range []string{opUpdate, opUpdates} {
 		c := &Case{Seed: []SeedRow{{ID: 1}}, Op: op, Shape: shPtr, Form: "map", NewNote: "new-x", CallerName: "column",
 			Recs: []RecSpec{{Tag: "r0", ID: 1}}, Set: "setcolumn", SetIn: "specific", Probe: "exec"}
+		checkCase(errorfer{t}, c)
+	}
+}
+
+// ---- listed finding: value- and pointer-receiver hooks of one phase on a struct argument -----------
+
+// classMixedReceiver: a model declaring one hook of a phase on the value (func (m M) BeforeSave)
+// and another hook of the same phase on the pointer (func (m *M) BeforeCreate), operated on
+// through a struct argument (Create(&M{}), Save(&M{}), Model(&m).Updates(..)). callMethod first
+// offers the struct VALUE to the hook interfaces; the value-receiver hook matches, `called` is
+// true, and the addressable pointer - the only thing the pointer-receiver hook matches - is never
+// offered. The schema (parsed from the pointer's method set) lists both hooks as applicable, and
+// the same record inside a slice argument gets both.
+const classMixedReceiver = "mixed-receiver-struct"
+
+func (c *Case) inClassMixedReceiver() bool {
+	if c.Model != "Mixed" || !c.hooksRun() || c.Shape != shPtr {
+		return false
+	}
+	switch c.Op {
+	case opCreate, opSave, opUpdates, opUpdate:
+		return true
+	}
+	return false
+}
+
+// TestC13WitnessMixedReceiverStruct asserts the grammar for Create(&Mixed{}) and
+// Model(&Mixed{ID:1}).Update(..); it fails while the defect exists. The slice form of the same
+// record is the control and must hold.
+func TestC13WitnessMixedReceiverStruct(t *testing.T) {
+	ctl := &Case{Model: "Mixed", Op: opCreate, Shape: shPtrSlice, Recs: []RecSpec{{Tag: "r0", Name: "a", Note: "n"}}, Probe: "exec"}
+	checkCase(t, ctl)
+	for _, c := range []*Case{
+		{Model: "Mixed", Op: opCreate, Shape: shPtr, Recs: []RecSpec{{Tag: "r0", Name: "a", Note: "n"}}, Probe: "exec"},
+		{Model: "Mixed", Seed: []SeedRow{{ID: 1}}, Op: opUpdate, Shape: shPtr, NewNote: "new-x", Recs: []RecSpec{{Tag: "r0", ID: 1}}, Probe: "exec"},
+	} {
 		checkCase(errorfer{t}, c)
 	}
 }
